@@ -302,40 +302,68 @@ def step (cfg : Cfg) (s : St) (a : Act) : St :=
 
 def run (cfg : Cfg) (s : St) (acts : List Act) : St := acts.foldl (step cfg) s
 
-/-! ### Sequential macro-operations (what the correspondence harness drives, op for op) -/
+/-! ### Sequential macro-operations (what the correspondence harness drives, op for op)
 
-/-- Deliver what follows a Done: the waiter returns; unless removals are held back (gate
-`queue.before-remove`), its `removeRequest` goroutine runs to completion. -/
-def settle (cfg : Cfg) (hold : Bool) (s : St) : St :=
-  (List.range s.n).foldl (fun s i =>
-    let s := step cfg s (.wake i)
-    if hold then s else step cfg (step cfg s (.unwatch i)) (.heapRemove i)) s
+Every macro-operation is a fixed list of thread actions computed from the state it starts in
+(actions that are not enabled are no-ops, so over-long lists are harmless): a driver run IS a
+schedule of the interleaving model, and every theorem over all schedules speaks about it. -/
 
-def iter (f : St → St) (stop : St → Bool) : Nat → St → St
-  | 0, s => s
-  | fuel + 1, s => if stop s then s else iter f stop fuel (f s)
+/-- What follows a Done: every signalled waiter returns; unless removals are held back (gate
+`queue.before-remove`) its `removeRequest` goroutine runs to completion. -/
+def settleActs (hold : Bool) (n : Nat) : List Act :=
+  (List.range n).flatMap fun i => if hold then [.wake i] else [.wake i, .unwatch i, .heapRemove i]
 
-/-- `arrive`: one whole `Execute` call up to parking (or the immediate refusal). -/
-def opArrive (cfg : Cfg) (s : St) (prio : Nat) : St :=
-  let i := s.n
-  run cfg s [.arrive prio, .register i, .push i]
+def repeatActs (acts : List Act) : Nat → List Act
+  | 0 => []
+  | k + 1 => acts ++ repeatActs acts k
 
-/-- `tick`: the mock clock advances by 100 ms; the TTL watcher handles everything that has expired
-(ascending ids; the harness canonicalises the order); then the loop's timer fires and the loop
-runs one pass. -/
-def opTick (cfg : Cfg) (hold : Bool) (s : St) : St :=
-  let s := run cfg s [.advance 100, .wScan]
-  let s := iter (fun s => settle cfg hold (step cfg s (.wStep 0))) (fun s => s.watcher == .idle || s.panicked)
-            (2 * s.n + 2) s
-  let s := step cfg s .loopFire
-  iter (fun s => settle cfg hold (step cfg s (.loopStep 0))) (fun s => s.loop == .idle || s.loop == .exited || s.panicked)
-    (6 * (s.heap.length + 1) + 2) s
+inductive Op
+  | arrive (prio : Nat)        -- one whole Execute call up to parking (or the immediate refusal)
+  | arriveBegin (prio : Nat)   -- Execute call held at the gate after the slot test
+  | arriveEnd (id : Nat)       -- ... released: registration and push
+  | tick                       -- mock clock +100 ms; TTL watcher first; then one pass of the loop
+  | holdRemove                 -- close the gate before removal
+  | flushRemove                -- open it: all pending removals run
+  | drain                      -- cancel the context; the loop's timer fires; StopAll
+  | idle                       -- no time passes on the mock clock; the TTL watcher runs
+deriving DecidableEq, Repr
 
-/-- `drain`: the context is cancelled, the loop's timer fires, `StopAll` runs (ascending ids). -/
-def opDrain (cfg : Cfg) (hold : Bool) (s : St) : St :=
-  let s := run cfg s [.cancel, .loopFire]
-  let s := iter (fun s => settle cfg hold (step cfg s (.loopStep 0))) (fun s => s.loop == .exited || s.panicked)
-            (s.n + 2) s
-  settle cfg hold s
+structure Sim where
+  s    : St
+  hold : Bool := false
+  gate : List Nat := []        -- ids held after the slot test, oldest first
+
+/-- The schedule of one macro-operation started in `x`. -/
+def opActs (x : Sim) : Op → List Act
+  | .arrive p => [.arrive p, .register x.s.n, .push x.s.n]
+  | .arriveBegin p => [.arrive p]
+  | .arriveEnd i => [.register i, .push i]
+  | .tick =>
+    [.advance 100, .wScan] ++
+    repeatActs (.wStep 0 :: settleActs x.hold x.s.n) (2 * x.s.n + 2) ++
+    [.loopFire] ++
+    repeatActs (.loopStep 0 :: settleActs x.hold x.s.n) (6 * (x.s.heap.length + 1) + 2)
+  | .holdRemove => []
+  | .flushRemove => settleActs false x.s.n
+  | .drain =>
+    [.cancel, .loopFire] ++ repeatActs (.loopStep 0 :: settleActs x.hold x.s.n) (x.s.n + 2) ++
+    settleActs x.hold x.s.n
+  | .idle => .wScan :: repeatActs (.wStep 0 :: settleActs x.hold x.s.n) (2 * x.s.n + 2)
+
+def applyOp (cfg : Cfg) (x : Sim) (op : Op) : Sim :=
+  let s' := run cfg x.s (opActs x op)
+  match op with
+  | .arriveBegin _ => { x with s := s', gate := if (s'.reqs x.s.n).pc = .checked then x.gate ++ [x.s.n] else x.gate }
+  | .arriveEnd _ => { x with s := s', gate := x.gate.drop 1 }
+  | .holdRemove => { x with s := s', hold := true }
+  | .flushRemove => { x with s := s', hold := false }
+  | _ => { x with s := s' }
+
+/-- The flat schedule of a list of macro-operations, and the state it leads to. -/
+def schedule (cfg : Cfg) : Sim → List Op → List Act
+  | _, [] => []
+  | x, op :: rest => opActs x op ++ schedule cfg (applyOp cfg x op) rest
+
+def runOps (cfg : Cfg) (x : Sim) (ops : List Op) : Sim := ops.foldl (applyOp cfg) x
 
 end LunarVerif.C06
